@@ -273,7 +273,7 @@ Qed.
 
 (* ================================================================ (b) one ProcessBlock step, with its effect on the store *)
 
-From BV Require Import Spec.C18_Spec Proofs.C18_Store.
+From BV Require Import Spec.C18_Spec Proofs.C18_Store Proofs.C18_Proofs.
 
 (* the LIB half of process_tail either leaves the forkdb alone or moves the LIB and purges *)
 Lemma lib_tail_db cfg s3 b evs fi s' evs' r : lib_tail cfg s3 b evs fi = (s', evs', r) ->
@@ -1201,3 +1201,101 @@ Section Lookups.
     destruct (chain_suffix_of _ bot (sh_bot _ _ _ _ _ _ _ _ Hsh) _ _ _ HcE _ (sh_q _ _ _ _ _ _ _ _ Hsh)) as (qx & Hq & Hcx).
     rewrite (chain_unstored _ _ _ _ Hpar Hcx) in Hq. cbn [app] in Hq. rewrite Hq. exact HmE.
   Qed.
+
+  (* ---------------------------------------------------------------- by hash / by number, on any fork *)
+
+  Lemma found_of_st s x : in_U (store (db s)) -> In x U -> st s x ->
+    get_block_by_hash s (bid x) = true /\ exists l, all_blocks_at s (bnum x) = Some l /\ In (bid x) l.
+  Proof.
+    intros HU Hx Hs. destruct (st_entry s x HU Hx Hs) as (e & Hf & Ee & He). split.
+    - unfold get_block_by_hash. rewrite Hf. reflexivity.
+    - eexists. split; [reflexivity|]. apply C18_Proofs.sortN_in. apply in_map_iff. exists e. split; [rewrite Ee; reflexivity|].
+      apply filter_In. split; [exact He|]. rewrite Ee. apply N.eqb_refl.
+  Qed.
+
+  (* a block that was stored is still stored, or it lies under the kept window *)
+  Definition Kept (s : fstate) (x : block) : Prop := st s x \/ bnum x < rn (libref (db s)) - kept.
+
+  Lemma kept_step s Fin S b s' evA evI evS Fnew S' : StepW s Fin S b s' evA evI evS Fnew S' ->
+    (forall x, In x U -> Kept s x -> Kept s' x) /\ (In b U -> dropped s b = false -> Kept s' b).
+  Proof.
+    intros (_ & _ & _ & _ & _ & _ & _ & Hmono & _ & _ & _ & _ & _ & _ & Hcases).
+    assert (Hlow : forall x, bnum x < rn (libref (db s)) - kept -> bnum x < rn (libref (db s')) - kept) by (intros; lia).
+    destruct Hcases as [(-> & _ & _ & _ & Hk)|[(Hd & Hk & Hdb' & _)|[(Hd & Hk & Hdb' & _)|
+                        (Hd & Hk & _ & _ & _ & s3 & Hk3 & Hl3 & Hdb3 & _ & Hc)]]].
+    - split; [auto|]. intros _ Hd. destruct Hk as [Hk|Hk]; [left; exact Hk | congruence].
+    - split.
+      + intros x _ [Hx|Hx]; [left | right; apply Hlow; exact Hx].
+        unfold st. rewrite Hdb'. cbn [new_db store]. rewrite keys_snoc. apply in_or_app. left. exact Hx.
+      + intros _ _. left. unfold st. rewrite Hdb'. cbn [new_db store]. rewrite keys_snoc. apply in_or_app. right. left. reflexivity.
+    - split.
+      + intros x _ [Hx|Hx]; [left | right; apply Hlow; exact Hx].
+        unfold st. rewrite Hdb'. cbn [new_db store]. rewrite keys_snoc. apply in_or_app. left. exact Hx.
+      + intros _ _. left. unfold st. rewrite Hdb'. cbn [new_db store]. rewrite keys_snoc. apply in_or_app. right. left. reflexivity.
+    - pose proof Hdb3 as [_ HU3 _ _ _ _].
+      assert (H3 : forall x, In x U -> st s3 x -> Kept s' x).
+      { intros x HxU Hx3. destruct Hc as [(Hsame & _)|(libr & Hp)].
+        - left. unfold st. rewrite Hsame. exact Hx3.
+        - destruct (st_entry s3 x HU3 HxU Hx3) as (e & _ & Ee & He).
+          destruct (N.le_gt_cases (rn libr - kept) (bnum x)) as [Hge|Hlt].
+          + left. unfold st. rewrite Hp. cbn [purge_before_lib move_lib store libref rn]. rewrite <- Ee. apply (in_map key).
+            apply filter_In. split; [exact He|]. apply N.leb_le. rewrite Ee. exact Hge.
+          + right. rewrite Hp. exact Hlt. }
+      split.
+      + intros x HxU [Hx|Hx]; [|right; apply Hlow; exact Hx]. apply H3; [exact HxU|].
+        unfold st. rewrite Hk3. apply in_or_app. left. exact Hx.
+      + intros HbU _. apply H3; [exact HbU|]. unfold st. rewrite Hk3. apply in_or_app. right. left. reflexivity.
+  Qed.
+
+  (* ---------------------------------------------------------------- every state reached by ROk steps *)
+
+  (* feeding the blocks `pre` to state s, every call returning ROk, delivers `evs` and ends in s' *)
+  Inductive reaches : fstate -> list block -> list event -> fstate -> Prop :=
+  | reach_nil s : reaches s [] [] s
+  | reach_step s b s1 evs pre evs' s' : fk_step cfg s b = (s1, evs, ROk) -> reaches s1 pre evs' s' ->
+                                       reaches s (b :: pre) (evs ++ evs') s'.
+
+  Lemma reach_inv : forall pre s evs s', reaches s pre evs s' -> forall Fin S, Inv s Fin S -> Ext s Fin S ->
+    (forall b, In b pre -> In b U) ->
+    exists Fin' S', Inv s' Fin' S' /\ Ext s' Fin' S' /\ apply_all (ri r0) S evs = Some S' /\
+      rn (libref (db s)) <= rn (libref (db s')) /\ (forall x, In x U -> Kept s x -> Kept s' x).
+  Proof.
+    intros pre s evs s' Hr. induction Hr as [s|s b s1 evs pre evs' s' Hstep Hr IH]; intros Fin S HI HE Hpre.
+    - exists Fin, S. split; [exact HI|]. split; [exact HE|]. split; [reflexivity|]. split; [lia | auto].
+    - assert (Hb : In b U) by (apply Hpre; left; reflexivity).
+      destruct (step_w s Fin S b HI Hb) as (s1' & evA & evI & evS & Fnew & S1 & Hstep' & HW).
+      rewrite Hstep in Hstep'. injection Hstep' as -> ->.
+      pose proof (ext_step _ _ _ _ _ _ _ _ _ _ HI HE Hb HW) as HE1.
+      destruct (kept_step _ _ _ _ _ _ _ _ _ _ HW) as [HK _].
+      destruct HW as (Happ & HI1 & _ & _ & HsI & HsS & _ & Hmono & _).
+      destruct (IH _ _ HI1 HE1 (fun x Hx => Hpre x (or_intror Hx))) as (Fin' & S' & HI' & HE' & Happ' & Hmono' & HK').
+      exists Fin', S'. split; [exact HI'|]. split; [exact HE'|]. split.
+      + rewrite (apply_all_app _ _ (evA ++ evI ++ evS) evs' S1); [exact Happ'|].
+        rewrite (apply_all_app _ _ _ _ _ Happ). apply apply_all_inert. apply Forall_app. split.
+        * eapply Forall_impl; [|exact HsI]. cbn beta. auto.
+        * eapply Forall_impl; [|exact HsS]. cbn beta. auto.
+      + split; [lia|]. intros x Hx Hk. apply HK'; [exact Hx|]. apply HK; assumption.
+  Qed.
+
+  (* a block that was received and not dropped is found by hash and by number as long as it lies in the kept window *)
+  Lemma reach_found pre1 s0 evs1 s1 b s2 evs pre2 evs2 s3 Fin S :
+    Inv s0 Fin S -> Ext s0 Fin S -> (forall x, In x (pre1 ++ b :: pre2) -> In x U) ->
+    reaches s0 pre1 evs1 s1 -> fk_step cfg s1 b = (s2, evs, ROk) -> dropped s1 b = false ->
+    reaches s2 pre2 evs2 s3 -> rn (libref (db s3)) - kept <= bnum b ->
+    get_block_by_hash s3 (bid b) = true /\ exists l, all_blocks_at s3 (bnum b) = Some l /\ In (bid b) l.
+  Proof.
+    intros HI HE HU0 Hr1 Hstep Hd Hr2 Hn.
+    assert (Hb : In b U) by (apply HU0; apply in_or_app; right; left; reflexivity).
+    destruct (reach_inv _ _ _ _ Hr1 _ _ HI HE) as (Fin1 & S1 & HI1 & HE1 & _).
+    { intros x Hx. apply HU0. apply in_or_app. left. exact Hx. }
+    destruct (step_w s1 Fin1 S1 b HI1 Hb) as (s2' & evA & evI & evS & Fnew & S2 & Hstep' & HW).
+    rewrite Hstep in Hstep'. injection Hstep' as -> ->.
+    pose proof (ext_step _ _ _ _ _ _ _ _ _ _ HI1 HE1 Hb HW) as HE2.
+    destruct (kept_step _ _ _ _ _ _ _ _ _ _ HW) as [_ HKb]. specialize (HKb Hb Hd).
+    destruct HW as (_ & HI2 & _).
+    destruct (reach_inv _ _ _ _ Hr2 _ _ HI2 HE2) as (Fin3 & S3 & HI3 & _ & _ & _ & HK3).
+    { intros x Hx. apply HU0. apply in_or_app. right. right. exact Hx. }
+    destruct (HK3 b Hb HKb) as [Hst|Hlt]; [|lia].
+    apply found_of_st; [apply (di_inU _ _ _ (i_db _ _ _ _ _ _ HI3)) | exact Hb | exact Hst].
+  Qed.
+End Lookups.
